@@ -515,9 +515,16 @@ def run_case(ctx, index):
                     if md3:
                         lone = r.randrange(len(md3)) if r.random() < .5 \
                             else None
+                        blank = r.choice([[], None, 'mixed'])
                         for q_, e in enumerate(md3):
                             e['lineage?'] = ['k__x', 'p__y'] if q_ == lone \
-                                else []
+                                else ([] if blank == [] else None
+                                      if blank is None or q_ == len(md3) - 1
+                                      else [])
+                        if lone is None and blank != []:
+                            # lists of one length, the last id without any
+                            for e in md3[:-1]:
+                                e['lineage?'] = ['k__x', 'p__y']
                         hit = True
                 if hit:
                     tm = gen.build(biom, s3, 'dense')
@@ -676,9 +683,10 @@ def expected_columns(md):
         row = []
         for k, n in width.items():
             if n is None:
-                row.append(e[k])
+                row.append(e.get(k))
             else:
-                row += list(e[k]) + [None] * (n - len(e[k]))
+                v = list(e[k]) if e.get(k) is not None else []
+                row += v + [None] * (n - len(v))
         rows.append(row)
     return cols, rows
 
